@@ -127,6 +127,10 @@ pub fn number(input: ParseString) -> ParseResult<Number> {
 pub fn complex_number(input: ParseString) -> ParseResult<C64Node> {
   let (input, real_num) = untyped_real_number(input)?;
   if let Ok((input, _)) = alt((tag("i"), tag("j")))(input.clone()) {
+    // `7i8`, `15i16`: the `i` starts a kind suffix, it is not the imaginary unit
+    if alt((alpha_token, digit_token))(input.clone()).is_ok() {
+      return Err(nom::Err::Error(nom::error::make_error(input, nom::error::ErrorKind::Alt)));
+    }
     return Ok((
       input,
       C64Node {
